@@ -354,8 +354,15 @@ def run(P, R, tier):
     # nothing formatted for one client may be kept for the next: no static buffers on the way to the sender
     c07.storage_audit(P, Remap(R, {'C07.WMC.2': 'C09.WMC.3'}))
     # the announced address is stored by the parser: its group move must not scramble it
-    c12.parser_rules(P, Remap(R, {'C12.COPY.1': 'C09.COPY.1', 'C12.MPT.2': 'C09.COPY.1', 'C12.MPT.3': 'C09.COPY.1'}))
+    c12.parser_rules(P, Remap(R, {'C12.COPY.1': 'C09.COPY.1', 'C12.MPT.2': 'C09.COPY.1', 'C12.MPT.3': 'C09.COPY.1', 'C12.MPT.4': 'C09.COPY.1'}))
     # the text denotes the announced address only if `::` replaces one genuine run of zero groups
     pf, pout, pposv = c12.printer(P)
     c12.run_counter(P, Remap(R, {'C12.MPT.1': 'C09.MPT.1'}), pf)
+    # ... every significant digit of a group is printed, and the parser read the digits with their own values
+    c12.digit_thresholds(P, Remap(R, {'C12.TAB.1': 'C09.TAB.2'}), pf, pout, pposv)
+    from . import c13
+    c13.hex_table(P, R, 'C09.TAB.3')
+    # the fully written form (six groups and a dotted quad) of an announced address is stored, not cut short
+    c13.full_range(P, R, c13.scope(P), 'C09.TAB.4', parts=('copy',))
+    R.floor('C09.TAB.4', 1)
     return EXPLANATION, ASSUMPTIONS
